@@ -173,6 +173,13 @@ impl<T> CacheAlignedVec<T> {
             return Ok(());
         }
 
+        // Zero-sized elements need no storage (and the capacity arithmetic below divides by
+        // the element size)
+        if mem::size_of::<T>() == 0 {
+            self.capacity = usize::MAX;
+            return Ok(());
+        }
+
         // Ensure capacity is aligned to cache line boundaries for optimal access
         let aligned_capacity =
             align_to_cache_line(new_capacity * mem::size_of::<T>()) / mem::size_of::<T>();
@@ -218,8 +225,8 @@ impl<T> Drop for CacheAlignedVec<T> {
         // Drop all elements first
         self.clear();
 
-        // Deallocate memory
-        if self.capacity > 0 {
+        // Deallocate memory (nothing was allocated for zero-sized elements)
+        if self.capacity > 0 && mem::size_of::<T>() > 0 {
             let layout =
                 Layout::from_size_align(self.capacity * mem::size_of::<T>(), CACHE_LINE_SIZE)
                     .unwrap();
